@@ -17,7 +17,7 @@
 //   incr                         SetFileIdIncrement() then report         -> R incr=<k> max=<MaxFileId>
 //   dump                         -> D n=<count> max=<MaxFileId> | <id>/<TYPE>/<state> ...   (TYPE = NAME or (A&B&C))
 //   inst IDX                     -> T <hex of the text STEPwrite(ostream) emits for instance IDX>
-//   attrs ENTITY                 -> A <name>/<NonRefType name>/<nullable 0|1>/<derived 0|1>/<redefining 0|1> ...
+//   attrs ENTITY                 -> A <name>/<NonRefType name>/<nullable 0|1>/<derived 0|1>/<redefining 0|1>/<Type() name, REF = REFERENCE_TYPE> ...
 //   quit
 // Unknown / malformed command -> R bad-op.
 #include <cstdio>
@@ -219,8 +219,9 @@ int main() {
                 int n = se->attributes.list_length();
                 for( int i = 0; i < n; i++ ) {
                     STEPattribute & a = se->attributes[i];
-                    fprintf( reply, " %s/%s/%d/%d/%d", a.Name(), typeName( a.NonRefType() ), a.Nullable() ? 1 : 0,
-                             a.IsDerived() ? 1 : 0, a.aDesc->AttrType() == AttrType_Redefining ? 1 : 0 );
+                    fprintf( reply, " %s/%s/%d/%d/%d/%s", a.Name(), typeName( a.NonRefType() ), a.Nullable() ? 1 : 0,
+                             a.IsDerived() ? 1 : 0, a.aDesc->AttrType() == AttrType_Redefining ? 1 : 0,
+                             a.Type() == REFERENCE_TYPE ? "REF" : typeName( a.Type() ) );
                 }
                 fprintf( reply, "\n" );
                 delete se;
